@@ -18,7 +18,9 @@ PY = os.path.join(ROOT, '.venv', 'bin', 'python')
 def reexec():
     py = bootstrap.ensure()
     if os.path.realpath(sys.executable) != os.path.realpath(py) or os.environ.get('SCMO_VERIF_IN_VENV') != '1':
-        env = dict(os.environ, SCMO_VERIF_IN_VENV='1', PYTHONPATH=ROOT, PYTHONDONTWRITEBYTECODE='1',
+        # VERIF_REPO (optional, used by bin/seedcheck only): import singlecellmultiomics from another tree than /repo
+        pp = ROOT if not os.environ.get('VERIF_REPO') else os.environ['VERIF_REPO'] + os.pathsep + ROOT
+        env = dict(os.environ, SCMO_VERIF_IN_VENV='1', PYTHONPATH=pp, PYTHONDONTWRITEBYTECODE='1',
                    PYTHONHASHSEED='0')
         os.execve(py, [py, os.path.abspath(__file__)] + sys.argv[1:], env)
 
@@ -79,7 +81,7 @@ def main():
                           'v=getattr(m,"preflight",None); r=v() if v else {}; '
                           'print("PREFLIGHT "+json.dumps(dict(lemmas=m.LEMMAS, prop=m.PROPERTY, preflight=r)))' % modname],
                          cwd=ROOT, capture_output=True, text=True, timeout=900,
-                         env=dict(os.environ, PYTHONPATH=ROOT))
+                         env=dict(os.environ))
     info = None
     for line in pre.stdout.splitlines():
         if line.startswith('PREFLIGHT '):
@@ -120,7 +122,8 @@ def main():
 
     known = load_known(pid)
     violations, known_hits, errors, inconclusive = [], {}, [], []
-    replay_root = os.path.join(ROOT, 'evidence', 'replays', pid)
+    no_ev = bool(a.only) or os.environ.get('VERIF_NO_EVIDENCE') == '1'
+    replay_root = os.path.join(ROOT, 'evidence', 'replays', pid) if not no_ev else os.path.join(ROOT, '.scratch', 'replays', '%s_%d' % (pid, os.getpid()))
     shutil.rmtree(replay_root, ignore_errors=True)
     n_replay = 0
     samples = []
@@ -218,7 +221,7 @@ def main():
         wall_s=round(wall, 1),
         violations=len(violations),
     )
-    if not a.only:
+    if not no_ev:
         os.makedirs(os.path.join(ROOT, 'evidence'), exist_ok=True)
         tmp = os.path.join(ROOT, 'evidence', pid + '.json.tmp')
         json.dump(ev, open(tmp, 'w'), indent=1)
